@@ -503,6 +503,12 @@ def _pris2(case):
     ok, ip = c.lib("isprismatic", lambda: S.isprismatic)
     if ok:
         c.true("isprismatic", bool(ip) is True, "prismatic planar twist not reported prismatic")
+    # the same question asked of an object holding several planar twists: one answer per value
+    ok, Sm = c.lib("Twist2[3]", lambda: L.Twist2([np.asarray(S.S, dtype=float).copy(), np.array([1.0, -2.0, 1.0]), np.asarray(S.S, dtype=float) * -2.0]))
+    if ok:
+        ok2, ipm = c.lib("isprismatic/multi", lambda: Sm.isprismatic)
+        if ok2:
+            c.true("isprismatic/multi", list(map(bool, ipm)) == [True, False, True], "isprismatic of [prismatic, revolute, prismatic] gave %r" % (ipm,))
     k = case["k"]
     ok, Sk = c.lib("S*k", lambda: S * k)
     if ok and type(Sk) is L.Twist2:
